@@ -40,7 +40,8 @@ STD_RULES = {
     'stdtypes': [[r'\bstd::make_unsigned_t<\s*(?:std::)?int64_t\s*>', 'uint64_t', 0], [r'\bstd::make_unsigned_t<\s*(?:std::)?int32_t\s*>', 'uint32_t', 0],
                  [r'\bstd::make_unsigned_t<\s*int\s*>', 'unsigned int', 0], [r'\bstd::make_unsigned_t<\s*long\s*>', 'unsigned long', 0],
                  [r'\bstd::make_signed_t<\s*(?:std::)?uint64_t\s*>', 'int64_t', 0], [r'\bstd::make_signed_t<\s*(?:std::)?size_t\s*>', 'ptrdiff_t', 0],
-                 [r'\bstd::(size_t|ptrdiff_t|u?int(?:8|16|32|64)_t|uintptr_t|intptr_t)\b', r'\1', 0]],
+                 [r'\bstd::(size_t|ptrdiff_t|u?int(?:8|16|32|64)_t|uintptr_t|intptr_t)\b', r'\1', 0],
+                 [r'\busing\s+(\w+)\s*=\s*([^;{}()]+);', r'typedef \2 \1;', 0]],
 }
 
 
